@@ -51,8 +51,11 @@ type pScenario struct {
 	SlowWatch int64    `json:"slow_watch,omitempty"` // virtual ns every watch set up after Run started takes to establish
 	Probes    []pProbe `json:"probes"`
 	Cached    bool     `json:"cached,omitempty"` // kind n1/T is cached
-	Pre       []pWrite `json:"pre,omitempty"`    // before Run
-	Steps     []pWrite `json:"steps"`
+	// the runtime sees the state through a re-batching layer (a remote or proxying state): watch batches that follow each
+	// other within a millisecond are merged, so one batch may carry bootstrap contents, the Bootstrapped marker and live events
+	Coalesce bool     `json:"coalesce,omitempty"`
+	Pre      []pWrite `json:"pre,omitempty"` // before Run
+	Steps    []pWrite `json:"steps"`
 }
 
 // slowWatchState delays the establishment of kind watches (a slow or remote state).
@@ -298,7 +301,13 @@ func runPipeScenario(t *testing.T, sc pScenario, table bool) (res pResult) {
 
 		var running atomic.Bool
 
-		rt, err := cruntime.NewRuntime(&slowWatchState{State: st, delay: time.Duration(sc.SlowWatch), running: &running}, zap.NewNop(), opts...)
+		var under state.State = st
+		if sc.Coalesce {
+			under = &coalescingState{State: st}
+			res.flags["coalesced_batches"] = true
+		}
+
+		rt, err := cruntime.NewRuntime(&slowWatchState{State: under, delay: time.Duration(sc.SlowWatch), running: &running}, zap.NewNop(), opts...)
 		if err != nil {
 			t.Fatal(err)
 		}
@@ -874,8 +883,9 @@ func TestC05(t *testing.T) {
 
 		for range tier(250, 6000) {
 			sc := pScenario{Probes: genPipeProbes(r), Cached: r.chance(1, 3)}
+			sc.Coalesce = r.chance(1, 4)
 
-			if r.chance(1, 3) {
+			if r.chance(1, 3) || sc.Coalesce && sc.Cached {
 				for range 1 + r.intn(3) {
 					sc.Pre = append(sc.Pre, pWrite{Op: "create", Typ: pick(r, []string{"T", "U"}), ID: pick(r, []string{"a", "b"})})
 				}
